@@ -15,6 +15,7 @@ import (
 	"os"
 	"sort"
 	"strconv"
+	"strings"
 
 	"github.com/spf13/viper"
 	"github.com/usnistgov/dastard"
@@ -34,6 +35,17 @@ func init() {
 		}
 		out.File = viper.ConfigFileUsed()
 		out.Settings = viper.AllSettings()
+		// AllSettings leaves out a key whose value has no leaf (such as grouptrigger: {connections: {}});
+		// name the top-level keys of the file and ask viper for each of them
+		if b, err := os.ReadFile(out.File); err == nil {
+			for _, k := range verifC16TopLevelKeys(b) {
+				if _, ok := out.Settings[k]; !ok {
+					if v := viper.Get(k); v != nil {
+						out.Settings[k] = v
+					}
+				}
+			}
+		}
 		for k := range out.Settings {
 			if viper.InConfig(k) {
 				out.InConfig = append(out.InConfig, k)
@@ -56,4 +68,21 @@ func init() {
 		dastard.Ports.SecondaryTrigs = base + 3
 		dastard.Ports.Summaries = base + 4
 	}
+}
+
+// verifC16TopLevelKeys names the top-level keys of a YAML mapping as yaml.v3 writes it: the lines that
+// start in column 0 with `key:` (lower-cased, as viper treats keys).
+func verifC16TopLevelKeys(b []byte) []string {
+	var keys []string
+	for _, line := range strings.Split(string(b), "\n") {
+		if line == "" || line[0] == ' ' || line[0] == '\t' || line[0] == '#' || line[0] == '-' {
+			continue
+		}
+		i := strings.Index(line, ":")
+		if i <= 0 {
+			continue
+		}
+		keys = append(keys, strings.ToLower(strings.Trim(line[:i], `"'`)))
+	}
+	return keys
 }
